@@ -309,7 +309,8 @@ def judge(case_lines, meta, out_lines, err):
 class Spec:
     props_module = "Mhd.Props.C01"
     lean_targets = ["Mhd.Props.C01", "drv_mem"]
-    required_theorems = ["Mhd.C01.step_wf", "Mhd.C01.run_wf", "Mhd.C01.windows_inside_arena", "Mhd.C01.recv_writes_inside"]
+    required_theorems = ["Mhd.C01.step_wf", "Mhd.C01.run_wf", "Mhd.C01.windows_inside_arena", "Mhd.C01.recv_writes_inside",
+                         "Mhd.C01.reqline_parser_no_fault", "Mhd.C01.field_parser_no_fault", "Mhd.C01.pool_blocks_wf"]
     trusted_base = ["Lean 4 kernel; propext/Classical.choice/Quot.sound only",
                     "hand-written model lean/Mhd/Model/ConnMem.lean (buffer layer of connection.c over the pool model of C08)",
                     "white-box correspondence harness/h_mem.c (calls the real static functions), daemon harness harness/h_daemon.c",
